@@ -396,6 +396,40 @@ type Epoch struct {
 	vals  map[string]T
 	parts []*Epoch // merged epoch: ite over guards
 	gs    []T
+	// partial havoc: components of the listed types are fresh, everything else is inherited from parent
+	parent *Epoch
+	reach  map[string]bool
+}
+
+// heapKeyType extracts the type component of a heap key ("H|<type>|path", "E|...", "M|...").
+func heapKeyType(key string) (space, typ string) {
+	i := strings.Index(key, "|")
+	if i < 0 {
+		return "", ""
+	}
+	rest := key[i+1:]
+	j := strings.LastIndex(rest, "|")
+	if j < 0 {
+		return key[:i], rest
+	}
+	return key[:i], rest[:j]
+}
+
+func (ep *Epoch) inherits(key string) bool {
+	if ep.parent == nil {
+		return false
+	}
+	if strings.HasPrefix(key, "!") {
+		return true
+	}
+	sp, ty := heapKeyType(key)
+	if sp == "G" {
+		return false // package-level variables may be written by any callee
+	}
+	if sp == "X" {
+		return true // ghost state of interface values: unreachable without an interface-typed argument
+	}
+	return !ep.reach[sp+"|"+ty]
 }
 
 func (e *Enc) newEpoch() *Epoch {
@@ -408,6 +442,11 @@ func (e *Enc) epochGet(ep *Epoch, key string, s Sort) T {
 		return e.epochGet(e.ep0, key, s)
 	}
 	if t, ok := ep.vals[key]; ok {
+		return t
+	}
+	if ep.inherits(key) {
+		t := e.epochGet(ep.parent, key, s)
+		ep.vals[key] = t
 		return t
 	}
 	if strings.HasPrefix(key, "!called|") && ep.parts == nil {
